@@ -65,29 +65,44 @@ PROPERTIES = {
                      'element in order, last pair wins'],
         not_decided=[],
     ),
+    'C20': dict(
+        level='proof',
+        explanation='gather_excs: one gather over ALL given awaitables with return_exceptions=True, loop invariant '
+                    'out = F(R, only, i) with F the prefix-recursive filter isinstance(., only) (subclass relation '
+                    'reflexive-transitive), so it yields exactly the matching exceptions in INPUT order; '
+                    'raise_first_exc (modular, by gather_excs\' contract) raises F(...)[0] or returns None and forwards '
+                    '`only`',
+        assumptions=['asyncio.gather(*aws, return_exceptions=True): every awaitable runs to completion, results in '
+                     'input order (stub, conformance-tested)'],
+        not_decided=[],
+    ),
 }
+
+
+import os as _os
+
+_HERE = _os.path.dirname(_os.path.dirname(_os.path.abspath(__file__)))
+
+
+def _scenario_cmds(prop, q):
+    cmds = []
+    if prop in ('C02', 'C12', 'C13'):
+        cmds.append('%s -m scenarios.filelock_ops %s' % (VPY, q))
+        if prop in ('C02', 'C13'):
+            cmds.append('%s -m scenarios.filelock_procs %s' % (VPY, q))
+    if prop in ('C18', 'C19'):
+        cmds.append('%s -m scenarios.pure_props %s %s' % (VPY, prop, q))
+    if _os.path.exists(_os.path.join(_HERE, 'scenarios', 'props', prop.lower() + '.py')):
+        cmds.append('%s -m scenarios.aio_props %s %s' % (VPY, prop, q))
+    return cmds
 
 
 def replay_for(prop, obligation):
     """Scenario commands (run under /venv/bin/python from /verif) that may exhibit a failed obligation
-    on the real code; first one exiting non-zero becomes the replay."""
-    out = []
-    if prop in ('C02', 'C12', 'C13'):
-        out.append('%s -m scenarios.filelock_ops --quick' % VPY)
-        if prop in ('C02', 'C13'):
-            out.append('%s -m scenarios.filelock_procs --quick' % VPY)
-    if prop in ('C18', 'C19'):
-        out.append('%s -m scenarios.pure_props %s --quick' % (VPY, prop))
-    return out
+    on the real code; the first one exiting non-zero becomes the replay."""
+    return _scenario_cmds(prop, '--quick')
 
 
 def standin_for(prop, tier):
     """Bounded stand-ins / cross-checks (labelled bounded, never counted as proved)."""
-    q = '--quick' if tier == 'quick' else '--thorough'
-    if prop == 'C12':
-        return ['%s -m scenarios.filelock_ops %s' % (VPY, q)]
-    if prop in ('C02', 'C13'):
-        return ['%s -m scenarios.filelock_ops %s' % (VPY, q), '%s -m scenarios.filelock_procs %s' % (VPY, q)]
-    if prop in ('C18', 'C19'):
-        return ['%s -m scenarios.pure_props %s %s' % (VPY, prop, q)]
-    return []
+    return _scenario_cmds(prop, '--quick' if tier == 'quick' else '--thorough')
